@@ -28,6 +28,10 @@ type MemCore struct {
 	enc zapcore.Encoder
 	r   *ring.Ring
 	mu  *sync.RWMutex
+	// root is set on cores derived with With(): they own no ring of their own and
+	// forward every write to the core they were derived from, so that all
+	// loggers advance one cursor under one mutex
+	root *MemCore
 }
 
 /*MemLogger - a struct for ring buffered inmemory logger */
@@ -122,6 +126,9 @@ func (mc *MemCore) Check(ent zapcore.Entry, ce *zapcore.CheckedEntry) *zapcore.C
 
 /*Write - implement interface */
 func (mc *MemCore) Write(ent zapcore.Entry, fields []zapcore.Field) error {
+	if mc.root != nil {
+		return mc.root.Write(ent, fields)
+	}
 	mc.mu.Lock()
 	defer mc.mu.Unlock()
 
@@ -148,10 +155,14 @@ func (mc *MemCore) Sync() error {
 func (mc *MemCore) clone() *MemCore {
 	mc.mu.RLock()
 	defer mc.mu.RUnlock()
+	root := mc.root
+	if root == nil {
+		root = mc
+	}
 	return &MemCore{
 		LevelEnabler: mc.LevelEnabler,
 		enc:          mc.enc.Clone(),
-		r:            mc.r,
 		mu:           &sync.RWMutex{},
+		root:         root,
 	}
 }
